@@ -45,6 +45,7 @@ typedef struct {
 typedef struct {
     int kind; long arg; unsigned long ud; int h;
     long own; textsnap_t owntext; long ct[6];
+    int seq;          /* position in the order of invocation (tie-break of the canonical order) */
 } event_t;
 
 typedef struct {
@@ -170,7 +171,7 @@ static event_t *new_event(rdsparser_t *r, int kind, long arg, void *ud)
     if (nev >= MAXEV) { ev_overflow++; return NULL; }
     event_t *e = &evs[nev++];
     memset(e, 0, sizeof *e);
-    e->kind = kind; e->arg = arg; e->ud = (unsigned long)(uintptr_t)ud; e->h = (r == cur_handle);
+    e->seq = nev - 1; e->kind = kind; e->arg = arg; e->ud = (unsigned long)(uintptr_t)ud; e->h = (r == cur_handle);
     /* exercise every getter inside the callback (C15: getters are pure observers) */
     snap_t tmp; snap_all(r, &tmp);
     (void)rdsparser_get_rt(r, 7);
@@ -182,7 +183,9 @@ static event_t *new_event(rdsparser_t *r, int kind, long arg, void *ud)
             if (!inst[i].reg[kind]) snprintf(xmsg, sizeof xmsg, "X callback %d invoked although it is not registered", kind);
             else if (inst[i].ud != (unsigned long)(uintptr_t)ud) snprintf(xmsg, sizeof xmsg, "X callback %d got user data %lu, most recently set: %lu", kind, (unsigned long)(uintptr_t)ud, inst[i].ud);
         }
-    if (reent >= 5000) {
+    if (reent >= 7000) {
+        /* acts after the callback has read its own value: nested_parse() */
+    } else if (reent >= 5000) {
         /* `ri 5000+j`: callback j resets the parser from inside the call (rdsparser_clear is an ordinary API call; nothing in
          * the API forbids making it from a callback) */
         if (kind == reent - 5000) { reent_count++; rdsparser_clear(r); }
@@ -206,17 +209,33 @@ static event_t *new_event(rdsparser_t *r, int kind, long arg, void *ud)
     return e;
 }
 
-static void cb_pi(rdsparser_t *r, void *ud)      { event_t *e = new_event(r, 0, 0, ud); if (e) e->own = rdsparser_get_pi(r); }
-static void cb_pty(rdsparser_t *r, void *ud)     { event_t *e = new_event(r, 1, 0, ud); if (e) e->own = rdsparser_get_pty(r); }
-static void cb_tp(rdsparser_t *r, void *ud)      { event_t *e = new_event(r, 2, 0, ud); if (e) e->own = rdsparser_get_tp(r); }
-static void cb_ta(rdsparser_t *r, void *ud)      { event_t *e = new_event(r, 3, 0, ud); if (e) e->own = rdsparser_get_ta(r); }
-static void cb_ms(rdsparser_t *r, void *ud)      { event_t *e = new_event(r, 4, 0, ud); if (e) e->own = rdsparser_get_ms(r); }
-static void cb_ecc(rdsparser_t *r, void *ud)     { event_t *e = new_event(r, 5, 0, ud); if (e) e->own = rdsparser_get_ecc(r); }
-static void cb_country(rdsparser_t *r, void *ud) { event_t *e = new_event(r, 6, 0, ud); if (e) e->own = rdsparser_get_country(r); }
-static void cb_af(rdsparser_t *r, uint32_t f, void *ud) { event_t *e = new_event(r, 7, (long)f, ud); if (e) e->own = af_listed(r, (long)f); }
-static void cb_ps(rdsparser_t *r, void *ud)      { event_t *e = new_event(r, 8, 0, ud); if (e) snap_text(r, 0, &e->owntext); }
-static void cb_rt(rdsparser_t *r, rdsparser_rt_flag_t fl, void *ud) { event_t *e = new_event(r, 9, (long)fl, ud); if (e) snap_text(r, fl ? 2 : 1, &e->owntext); }
-static void cb_ptyn(rdsparser_t *r, void *ud)    { event_t *e = new_event(r, 10, 0, ud); if (e) snap_text(r, 3, &e->owntext); }
+/* `ri 7000+j`: callback j PARSES A GROUP on the same parser from inside the call (after it has read its own value); the callbacks
+ * invoked by that nested call are recorded like any other but do not act themselves. The group is RdsModel/Reentrant.lean's
+ * `nestedGroup`. */
+static void nested_parse(rdsparser_t *r, int kind)
+{
+    if (reent >= 7000 && kind == reent - 7000) {
+        static const rdsparser_data_t nd = { 0x5A5A, 0x0531, 0x2D37, 0x5A7A };
+        static const rdsparser_error_t ne = { 0, 0, 0, 0 };
+        int save = reent;
+        reent = 0;
+        reent_count++;
+        rdsparser_parse(r, nd, ne);
+        reent = save;
+    }
+}
+
+static void cb_pi(rdsparser_t *r, void *ud)      { event_t *e = new_event(r, 0, 0, ud); if (e) e->own = rdsparser_get_pi(r); nested_parse(r, 0); }
+static void cb_pty(rdsparser_t *r, void *ud)     { event_t *e = new_event(r, 1, 0, ud); if (e) e->own = rdsparser_get_pty(r); nested_parse(r, 1); }
+static void cb_tp(rdsparser_t *r, void *ud)      { event_t *e = new_event(r, 2, 0, ud); if (e) e->own = rdsparser_get_tp(r); nested_parse(r, 2); }
+static void cb_ta(rdsparser_t *r, void *ud)      { event_t *e = new_event(r, 3, 0, ud); if (e) e->own = rdsparser_get_ta(r); nested_parse(r, 3); }
+static void cb_ms(rdsparser_t *r, void *ud)      { event_t *e = new_event(r, 4, 0, ud); if (e) e->own = rdsparser_get_ms(r); nested_parse(r, 4); }
+static void cb_ecc(rdsparser_t *r, void *ud)     { event_t *e = new_event(r, 5, 0, ud); if (e) e->own = rdsparser_get_ecc(r); nested_parse(r, 5); }
+static void cb_country(rdsparser_t *r, void *ud) { event_t *e = new_event(r, 6, 0, ud); if (e) e->own = rdsparser_get_country(r); nested_parse(r, 6); }
+static void cb_af(rdsparser_t *r, uint32_t f, void *ud) { event_t *e = new_event(r, 7, (long)f, ud); if (e) e->own = af_listed(r, (long)f); nested_parse(r, 7); }
+static void cb_ps(rdsparser_t *r, void *ud)      { event_t *e = new_event(r, 8, 0, ud); if (e) snap_text(r, 0, &e->owntext); nested_parse(r, 8); }
+static void cb_rt(rdsparser_t *r, rdsparser_rt_flag_t fl, void *ud) { event_t *e = new_event(r, 9, (long)fl, ud); if (e) snap_text(r, fl ? 2 : 1, &e->owntext); nested_parse(r, 9); }
+static void cb_ptyn(rdsparser_t *r, void *ud)    { event_t *e = new_event(r, 10, 0, ud); if (e) snap_text(r, 3, &e->owntext); nested_parse(r, 10); }
 static void cb_ct(rdsparser_t *r, const rdsparser_ct_t *ct, void *ud)
 {
     event_t *e = new_event(r, 11, 0, ud);
@@ -227,6 +246,7 @@ static void cb_ct(rdsparser_t *r, const rdsparser_ct_t *ct, void *ud)
     e->ct[3] = rdsparser_ct_get_hour(ct);
     e->ct[4] = rdsparser_ct_get_minute(ct);
     e->ct[5] = rdsparser_ct_get_offset(ct);
+    nested_parse(r, 11);
 }
 
 static void do_set_ud(rdsparser_t *r, unsigned long u)
@@ -271,6 +291,7 @@ static int ev_cmp(const void *x, const void *y)
     const event_t *a = x, *b = y;
     if (a->kind != b->kind) return a->kind < b->kind ? -1 : 1;
     if (a->arg != b->arg) return a->arg < b->arg ? -1 : 1;
+    if (a->seq != b->seq) return a->seq < b->seq ? -1 : 1;
     return 0;
 }
 
